@@ -17,7 +17,6 @@ structure Laws (C : BCrypto) : Prop where
   cost : -9223372036854775808 ≤ C.N ∧ C.N < 9223372036854775808 ∧ -9223372036854775808 ≤ C.R ∧
     C.R < 9223372036854775808 ∧ -9223372036854775808 ≤ C.P ∧ C.P < 9223372036854775808
   box_ne : ∀ k p, C.box k p ≠ []
-  box_small : ∀ k p, (C.box k p).length < 2147483648        -- serializeHDAccountKey computes in uint32
   id_ne : ∀ w, C.walletId w ≠ []
   name_id : ∀ w, C.nameOf (C.walletId w) = some w
   id_name : ∀ b w, C.nameOf b = some w → C.walletId w = b
